@@ -9,4 +9,5 @@ mkdir -p .build evidence
 (cd mc && "$VERIF_GO" build -tags verif -o ../.build/vcheck ./cmd/vcheck)
 (cd mc && "$VERIF_GO" test -c -tags verif -vet=off -o ../.build/c17.test ./pubsubmc)
 (cd mc && "$VERIF_GO" build -race -tags verif -o ../.build/vcheck-race ./cmd/vcheck)
+bin/build_prim.sh race
 echo "setup ok: $(.build/vcheck 2>&1 | head -1)"
